@@ -273,8 +273,9 @@ class SelectWorkersContract(Contract):
         for i, (w, b) in enumerate(zip(workers, sel)):
             bs, be = busy(w, t)
             # witness: selected -> the task's span; not selected -> the library's unique negative points -2, -3, ...
-            wit.append((bs, If(b, t._start, z3.IntVal(-(i + 2)))))
-            wit.append((be, If(b, t._end, z3.IntVal(-(i + 2)))))
+            up = z3.IntVal(spec.unselected_point(t, w))
+            wit.append((bs, If(b, t._start, up)))
+            wit.append((be, If(b, t._end, up)))
         goal = z3.substitute(And(*A), *wit)
         out.append(
             Clause("complete", goal, hyps=valid + [spec.cmp_kind(case["kind"], spec.count(sel), P.int("nb"))], props=("C05", "C06"), kind="complete", bounded=self.bounded)
@@ -451,16 +452,18 @@ class WorkAmount(Contract):
         # C06: a task that is left out needs no work: whatever the work amount, leaving an optional task
         # out is admitted (witness: busy intervals at the task's / the selection's conventional points)
         if decode(case["t"])[1]:
-            wit = [(t._start, z3.IntVal(-1)), (t._end, z3.IntVal(-1))]
+            pp = z3.IntVal(spec.past_point(t))
+            wit = [(t._start, pp), (t._end, pp)]
             if case["t"][0] == "V":
                 wit.append((t._duration, z3.IntVal(0)))
             for i, w in enumerate(workers):
                 bs, be = busy(w, t)
                 if case["mode"] == "select":
                     b = ctx["sw"]._selection_dict[w]
-                    wit += [(bs, If(b, z3.IntVal(-1), z3.IntVal(-(i + 2)))), (be, If(b, z3.IntVal(-1), z3.IntVal(-(i + 2))))]
+                    up = z3.IntVal(spec.unselected_point(t, w))
+                    wit += [(bs, If(b, pp, up)), (be, If(b, pp, up))]
                 else:
-                    wit += [(bs, z3.IntVal(-1)), (be, z3.IntVal(-1))]
+                    wit += [(bs, pp), (be, pp)]
             goal = z3.substitute(And(*A), *wit)
             hy = [Not(s), hz >= 0, hz <= T(H)]
             if case["mode"] == "select":
